@@ -246,7 +246,7 @@ impl Engine for CmdSim {
             real_components: &["clap_builder::Command (build, _build_self, _build_subcommand, _build_bin_names, mkeymap)", "clap_builder::parser::Parser", "clap_builder::error (kind, render)", "help/usage rendering between parses"],
             stub_components: &["caller-supplied TypedValueParser that rejects scenario-marked raw values (callback fault seam)", "the reference is clap itself on a fresh value (as the statement says), not a stub"],
             workload_only_clauses: &["which command tree and which argv: ordinary seeded workload; the history of calls on one value is the simulated dimension"],
-            assumptions: &["all parses of a history use the same argv[0] (the statement says 'under the same program name'); multicall histories use one applet name", "message identity is asserted only for parse/clone-only histories, as the statement does; after build/render/error operations only kind and matches are compared", "a panic on both the aged and the fresh side is equal behaviour (counted as an unclaimed observation; C01 is not claimed)"],
+            assumptions: &["all parses of a history use the same argv[0] (the statement says 'under the same program name'); multicall histories use one applet name", "message identity is asserted for histories of parses, clones, renders, writes and error constructions; after an explicit build() (which expands the help tree) only kind and matches are compared", "a panic on both the aged and the fresh side is equal behaviour (counted as an unclaimed observation; C01 is not claimed)"],
             abort_is_violation: false,
         }
     }
@@ -447,6 +447,8 @@ impl Engine for CmdSim {
                     }
                 }
                 Op::Build => {
+                    // an explicit build() expands the help tree; the statement promises kinds and matches for a
+                    // pre-built definition, not message identity (tried: the unchanged tree differs)
                     parse_only = false;
                     let r = catch(|| {
                         aged.build();
@@ -474,9 +476,9 @@ impl Engine for CmdSim {
                     }
                 }
                 Op::RenderHelp | Op::RenderLongHelp | Op::RenderUsage | Op::RenderVersion | Op::RenderLongVersion | Op::WriteHelp | Op::WriteLongHelp | Op::Error(_) | Op::Introspect => {
-                    if op.mutates_definition_view() && !matches!(op, Op::Introspect | Op::RenderVersion | Op::RenderLongVersion) {
-                        parse_only = false;
-                    }
+                    // "rendering help or usage in between does not change later parse results": the rendered
+                    // message of a later error is part of that result, so message identity stays asserted
+                    // after render / write / error operations (only an explicit build() ends it)
                     let r = catch(|| match op {
                         Op::RenderHelp => aged.render_help().to_string().len(),
                         Op::RenderLongHelp => aged.render_long_help().to_string().len(),
